@@ -456,6 +456,8 @@ class WGen:
             nb = self.block(ts=-5000, h=self.w.blocks[b]["h"])
             self.good(nb, cl=target["cl"], tx=target["tx"])
         self.step(None)
+        if r.random() < 0.5:
+            self.decoy(target["tx"])
         self.op(op="req", tx=target["tx"] if kind != "unknown-tx" else 9999)
         if kind == "orphan-race":
             self.step(r.choice(["status", "events-tx"]), 1)
@@ -466,6 +468,15 @@ class WGen:
         self.step(None)
         self.raise_height(1)
         return finish_scenario(self.sc, "gen", "reobs")
+
+    def decoy(self, tx):
+        """a re-observation request that is not the Alephium watcher's (other chain id, also one that only equals 255 after
+        truncation to 16 bits; tx hash of another length): it must be dropped without a single node call"""
+        r = self.r
+        if r.random() < 0.7:
+            self.op(op="req", tx=tx, chain=r.choice([1, 2, 4, 254, 256, 65535, 65791]))
+        else:
+            self.op(op="req", tx=tx, len=r.choice([31, 33, 20, 1]))
 
     def reobs_multi(self, order=None, foreign=None, young=None):
         """C08 re-observation of a transaction that carries SEVERAL messages of the core contract with different consistency
@@ -967,7 +978,8 @@ def classify(rj, scen_lines, mainnet):
         where = re.sub(r"[^A-Za-z0-9.]+", "", where)
         shape = next((x["a"]["ans"] for x in reversed(upto) if x["ev"] == "Req" and x["a"]["route"] == "multicall"), "none")
         what = "nil-deref" if "nil pointer" in ln["a"].get("what", "") else re.sub(r"[^A-Za-z0-9]+", "-", ln["a"].get("what", ""))[:40]
-        return "C09", "crash/%s/%s/last-multicall=%s" % (where, what, shape)
+        # the process died: whatever the scenario was about, neither safety nor delivery can be claimed for it
+        return "C08+C09", "crash/%s/%s/last-multicall=%s" % (where, what, shape)
     # Run ended although no API error was served: whichever line of that episode TLC could not explain first (the
     # fetcher goes on for a moment after reporting the error), it is the same event
     later_exit = next((x for x in scen_lines if x["n"] >= ln["n"] and x["ev"] == "RunExit"), None)
@@ -1085,6 +1097,19 @@ def pinned(prop):
         g.step(None); g.raise_height(3)
         g.step(None); g.op(op="req", tx=e["tx"])
         done(g, "reobs-lookalike")
+        # requests that are not the Alephium watcher's (other chain ids, truncation alias of 255, short / long tx hash),
+        # then the genuine one
+        g = start()
+        b = g.block(ts=-5000)
+        e = g.good(b, cl=0)
+        g.step(None); g.raise_height(2)
+        g.step(None)
+        for ch in (2, 254, 256, 65791):
+            g.op(op="req", tx=e["tx"], chain=ch)
+        for ln in (31, 33):
+            g.op(op="req", tx=e["tx"], len=ln)
+        g.step(None); g.op(op="req", tx=e["tx"])
+        done(g, "reobs-foreign-requests")
         # mainnet transfer in a 100-s-old block: held by the polling path, re-observation requested
         g = start(mainnet=True)
         b = g.block(ts=-100)
@@ -1177,6 +1202,23 @@ def pinned(prop):
         g.good(b, cl=0)
         g.step(None); g.raise_height(2)
         done(g, "append-after-count")
+        # re-observation requests while the polling path is at work (confirmed tx, unknown tx, another chain's request):
+        # whatever the re-observer does, the watcher must stay up and every final message must still come out
+        g = start(page=2)
+        b = g.block(ts=-5000)
+        e1 = g.good(b, cl=0); e2 = g.good(b, cl=2)
+        g.step(None); g.op(op="req", tx=e1["tx"]); g.op(op="req", tx=4242); g.op(op="req", tx=e2["tx"], chain=2)
+        g.step(None); g.raise_height(1)
+        g.step(None); g.op(op="req", tx=e2["tx"])
+        b2 = g.block(ts=-5000)
+        g.good(b2, cl=0)
+        g.step(None); g.raise_height(2)
+        g.step(None); g.op(op="req", tx=e2["tx"])
+        g.step(None)
+        b3 = g.block(ts=-5000)
+        g.good(b3, cl=0)
+        g.step(None); g.raise_height(1)
+        done(g, "reobservation-during-polling")
         # same target chain, increasing sequences, decreasing confirmation delays: the later sequences are final first
         for name, step_by_one in (("stepwise", True), ("same-round", False)):
             g = start(page=3)
